@@ -58,3 +58,55 @@ fn engine_move_is_a_legal_move_whenever_one_exists() {
         }
     }
 }
+
+/// C14, notation half (bounded only: strings are outside the deductive check): along games played by typing
+/// labels, every label the engine lists for a legal move is accepted and plays exactly that move; labels that
+/// are legal only for the other side, or only in the previous position, are rejected without effect.
+#[test]
+fn typed_labels_accepted_iff_legal_played_exactly_rejected_without_effect() {
+    // two crafted lines in which a placement recurs with the OTHER side to move (tempo loss), then random games
+    let crafted: Vec<Vec<&str>> = vec![
+        vec!["e3", "e6", "Qf3", "Nf6", "Qe2", "Ng8", "Qd1", "Nf6"],
+        vec!["Nf3", "Nf6", "Ng1", "Ng8", "e4", "e5", "Ke2", "Ke7", "Ke1", "Ke8"],
+    ];
+    let mut r = Lcg(11);
+    for game_no in 0..6 {
+        let mut game = Game::new(1);
+        let mut previous_labels: Vec<String> = Vec::new();
+        for ply in 0..12 {
+            let turn = game.board().turn();
+            let listed = game.enumerated_candidate_moves();
+            if listed.is_empty() { break; }
+            let labels: Vec<String> = listed.iter().map(|(_, l)| l.clone()).collect();
+            // labels of the other side in this position, and labels of the previous position, that are not labels now
+            let mut other = game.board().clone();
+            other.toggle_turn();
+            // (asking the generator for the side NOT to move is only meaningful without a pending en-passant target)
+            let other_side = if other.peek_en_passant_target().is_empty() {
+                chess::chess_move::algebraic_notation::enumerate_candidate_moves_with_algebraic_notation(&mut other, turn.opposite(), &mut MoveGenerator::new())
+            } else { Vec::new() };
+            let near: Vec<String> = other_side.iter().map(|(_, l)| l.clone()).chain(previous_labels.iter().cloned())
+                .filter(|l| !labels.contains(l)).take(12).collect();
+            for bad in near {
+                let before = snapshot(game.board());
+                let hist = game.last_move().map(|m| m.to_uci());
+                let res = game.apply_chess_move_from_raw_algebraic_notation(bad.clone());
+                assert!(res.is_err(), "game {} ply {}: `{}` is not a label of a legal move here but was accepted", game_no, ply, bad);
+                assert!(snapshot(game.board()) == before && game.last_move().map(|m| m.to_uci()) == hist, "game {} ply {}: rejecting `{}` changed the game", game_no, ply, bad);
+            }
+            let pick = if game_no < crafted.len() && ply < crafted[game_no].len() {
+                listed.iter().position(|(_, l)| l == crafted[game_no][ply]).unwrap_or_else(|| panic!("crafted label {} not listed at ply {}", crafted[game_no][ply], ply))
+            } else { r.below(listed.len()) };
+            let (expected_move, label) = listed[pick].clone();
+            let mut expect = game.board().clone();
+            expected_move.apply(&mut expect).unwrap();
+            let played = game.apply_chess_move_from_raw_algebraic_notation(label.clone())
+                .unwrap_or_else(|e| panic!("game {} ply {}: the listed label `{}` was rejected: {}", game_no, ply, label, e));
+            assert!(played.to_uci() == expected_move.to_uci(), "game {} ply {}: `{}` played {} instead of {}", game_no, ply, label, played, expected_move);
+            assert!(snapshot(game.board()) == snapshot(&expect), "game {} ply {}: board after `{}` is not the successor", game_no, ply, label);
+            assert!(game.last_move().map(|m| m.to_uci()) == Some(expected_move.to_uci()), "game {} ply {}: `{}` not recorded", game_no, ply, label);
+            game.board_mut().toggle_turn();
+            previous_labels = labels;
+        }
+    }
+}
